@@ -27,6 +27,22 @@ def loop_nodes(L):
     lim_in = ["limit"] if lim == "limit" else []
     stepexpr = "step" if L.get("step_input") else str(L["step"])
     nodes = []
+    if form == "selfsignal":
+        # the gate's target accumulates into the carried variable itself; a later body node (which also runs once at
+        # entry, its inputs being supplied) emits the end-of-iteration signal the gate waits for
+        nodes.append({"k": "func", "name": "b0", "params": ["i"] + (["step"] if L.get("step_input") else []), "defaults": {}, "outs": ["i"], "expr": f"i + {stepexpr}"})
+        nodes.append({"k": "func", "name": "b1", "params": ["i", "tot"], "defaults": {}, "outs": ["tot"], "emit": ["tick"], "expr": "tot + (i,)"})
+        stop = "done" if L["exit"] == "node" else "END"
+        g = {"name": "g", "defaults": {}, "default_open": True, "params": ["i"] + lim_in, "wait_for": ["tick"]}
+        cond = f"i < {lim}"
+        if L["gate"] == "ifelse":
+            g.update({"k": "ifelse", "t": "b0", "f": stop, "expr": cond})
+        else:
+            g.update({"k": "route", "targets": ["b0", stop], "fallback": None, "multi": False, "expr": f"'b0' if {cond} else '{stop}'"})
+        nodes.append(g)
+        if L["exit"] == "node":
+            nodes.append({"k": "func", "name": "done", "params": ["i"], "defaults": {}, "outs": ["res"], "expr": "('done', i)"})
+        return nodes
     for j in range(k):
         last = j == k - 1
         src = "i" if j == 0 else f"t{j-1}"
@@ -79,6 +95,11 @@ def loop_graph_spec(L, order=None):
     if order:
         perm = sorted(range(len(inner)), key=lambda i: (order[i] if i < len(order) else 0, i))
         inner = [inner[i] for i in perm]
+    if L.get("pre_entry") and not L.get("nested"):
+        # an upstream node that with_entrypoint() excludes: the caller supplies `limit` directly (and x, so the skipped
+        # node would be runnable if it were not out of scope)
+        pre = {"k": "func", "name": "mk_limit", "params": ["x"], "defaults": {}, "outs": ["limit"], "expr": f"x + {L.get('limit_off', 0)}"}
+        return {"nodes": inner + [pre], "entry": ["b0"]}
     if not L.get("nested"):
         return {"nodes": inner}
     outer = [
@@ -102,8 +123,12 @@ def loop_values(L):
         vals["x"] = L["limit"] - L.get("limit_off", 0)
     elif L.get("limit_input"):
         vals["limit"] = L["limit"]
+        if L.get("pre_entry"):
+            vals["x"] = L["limit"] - L.get("limit_off", 0) + 100  # would give a different limit if mk_limit ran
     if L.get("acc"):
         vals["acc"] = ()
+    if L["form"] == "selfsignal":
+        vals["tot"] = ()
     return vals
 
 
@@ -111,6 +136,22 @@ def eval_loop(L):
     """Literal sequential execution. Returns (env, body counts, trajectories {var: [values in order]})."""
     k, form, start, step, limit = L["k"], L["form"], L["start"], L["step"], L["limit"]
     e = L.get("entry", 0)
+    if form == "selfsignal":
+        i, tot, n = start, (start,), 0
+        traj = {"i": [start], "tot": [(), (start,)]}
+        while True:
+            i += step
+            tot += (i,)
+            n += 1
+            traj["i"].append(i)
+            traj["tot"].append(tot)
+            if not i < limit:
+                break
+        env = {"i": i, "tot": tot}
+        if L["exit"] == "node":
+            env["res"] = ("done", i)
+            traj["res"] = [("done", v) for v in traj["i"]]
+        return env, Counter({"b0": n}), traj, n
     counts: Counter = Counter()
     env: dict = {}
     traj: dict = {"i": []}
@@ -161,6 +202,9 @@ def eval_loop(L):
         traj["acc"] = [tuple(("item", v) for v in traj["i"][: n + 1]) for n in range(len(traj["i"]))] + [()]
         counts["nxt"] = len(traj["i"])
         counts["acc"] = len(traj["i"])
+    if L.get("pre_entry") and not L.get("nested"):
+        env["limit"] = limit  # caller-supplied value of a declared output name stays visible
+        traj["limit"] = [limit]
     if L.get("nested"):
         env["limit"] = limit
         env["out"] = ("fin", state["i"])
